@@ -322,6 +322,9 @@ def select(units, prop, tier):
 def write_evidence(prop, ev):
     os.makedirs(os.path.join(VERIF, "evidence"), exist_ok=True)
     path = os.path.join(VERIF, "evidence", prop + ".json")
+    if os.environ.get("VERIF_UNITS") or os.environ.get("VERIF_ONLY") or os.environ.get("VERIF_REPO"):
+        # development / seeded-change runs cover a subset or another tree: never overwrite the real evidence
+        path = os.path.join(os.environ.get("VERIF_EVIDENCE_DIR", "/var/tmp"), "evidence-dev-" + prop + ".json")
     json.dump(ev, open(path, "w"), indent=1)
     return path
 
@@ -336,6 +339,11 @@ def check(prop, tier):
     sel = select(kani_units, prop, tier)
     vsel = [u for u in verus_units if prop in u["props"]]
     nsel = [u for u in units if u["engine"] == "native" and prop in u["props"]]
+    only_units = os.environ.get("VERIF_UNITS")  # development aid: regex over unit names (no evidence is written)
+    if only_units:
+        sel = [(u, hs) for (u, hs) in sel if re.search(only_units, u["unit"])] if sel and isinstance(sel[0], tuple) else sel
+        vsel = [u for u in vsel if re.search(only_units, u["unit"])]
+        nsel = [u for u in nsel if re.search(only_units, u["unit"])]
     meta = registry.PROPS.get(prop)
     if meta is None or (not sel and not vsel and not nsel):
         log("UNDECIDED property=%s reason=no-check-registered" % prop)
